@@ -3,7 +3,7 @@
    list over the fault alphabet (writes, timer ticks, cache cleaning, deliver / drop / duplicate
    the i-th in-flight datagram), of any length. *)
 From Coq Require Import List ZArith Bool Lia.
-From RD Require Import Common.Corr C02.Model C02.Inv C02.Proofs.
+From RD Require Import Common.Corr C02.Model C02.Inv C02.Proofs C02.Full.
 Import ListNotations.
 Open Scope Z_scope.
 
@@ -39,16 +39,31 @@ Theorem C02_quiet : forall depth s,
 Proof. exact quiet. Qed.
 Print Assumptions C02_quiet.
 
-(* the model passes the per-round oracle clauses (progress, no regress, covered when nothing is
-   missing, silence) from every reachable state.  Partial: the clauses "a round leaves nothing in
-   flight", "nothing missing and nothing in flight => acknowledged and calm one round later" and
-   the end-of-case clause of [ok] are checked on every correspondence case (model and code) but not
-   proved for all cases. *)
-Theorem C02_model_ok_partial : forall depth s,
+(* between "nothing missing" and silence at most two rounds pass: a round leaves nothing in flight,
+   and from "nothing missing, nothing in flight" one round makes the writer acknowledged and calm *)
+Theorem C02_round_empties_network : forall depth s,
+  0 <= depth -> reachable depth s -> net (round depth s) = [].
+Proof. intros depth s D R. apply round_net_empty; [exact D | exact (reachable_Inv depth s D R)]. Qed.
+Print Assumptions C02_round_empties_network.
+
+Theorem C02_settles : forall depth s,
+  0 <= depth -> reachable depth s -> mu s = O -> net s = [] ->
+  acked (round depth s) = true /\ calm (round depth s) = true.
+Proof. intros depth s D R. apply round_settles; [exact D | exact (reachable_Inv depth s D R)]. Qed.
+Print Assumptions C02_settles.
+
+(* the model passes the whole oracle on every case (depth >= 0 is what writer.rs computes:
+   min(depth as usize, 32)) *)
+Theorem C02_model_ok : forall c, 0 <= c_depth c -> ok c (run c) = true.
+Proof. exact run_ok. Qed.
+Print Assumptions C02_model_ok.
+
+(* the per-round clauses hold from every reachable state *)
+Theorem C02_round_ok : forall depth s,
   0 <= depth -> reachable depth s ->
-  round_core (w_log (sw s)) (dig s) (snd (round_sent depth s), dig (fst (round_sent depth s))) = true.
-Proof. exact round_core_ok. Qed.
-Print Assumptions C02_model_ok_partial.
+  round_ok (w_log (sw s)) (dig s) (snd (round_sent depth s), dig (round depth s)) = true.
+Proof. intros depth s D R. apply round_ok_full; [exact D | exact (reachable_Inv depth s D R)]. Qed.
+Print Assumptions C02_round_ok.
 
 (* what an accepted round observation means *)
 Theorem C02_oracle_sound : forall log d0 e,
